@@ -16,6 +16,7 @@ type NondetVal struct {
 	K string `json:"k"`
 	N string `json:"n"`
 	V uint64 `json:"v"`
+	F bool   `json:"f"` // free: only feeds hash / string-order abstractions; may be re-chosen natively
 }
 
 type Run struct {
@@ -157,6 +158,7 @@ const (
 	OrderInsertion = 0
 	OrderFwdRev    = 1
 	OrderAll       = 2
+	OrderRotate    = 3
 )
 
 // RunReplay is the native driver: it runs every recorded run of $VERIF_REPLAY through table.
@@ -183,8 +185,54 @@ func RunReplay(t *testing.T, table map[string]func(a []int)) {
 		for i, a := range r.Args {
 			args[i] = int(a)
 		}
-		fmt.Printf("VERIF-RUN %s %s\n", r.ID, runOne(fn, args, r.Nondet))
+		res := runOne(fn, args, r.Nondet)
+		// map iteration order cannot be forced natively: repeat until the recorded divergence shows up
+		if r.Expect == "violation" && res == "PASSED" && (usesMapOrder(r.Nondet) || hasFree(r.Nondet)) {
+			// The engine abstracts SHA-256 and string order; the values of inputs that only feed those
+			// abstractions are re-chosen until the real functions realise the recorded behaviour.
+			seed := uint64(88172645463325252)
+			vals := append([]NondetVal(nil), r.Nondet...)
+			for i := 0; i < 6000 && res == "PASSED"; i++ {
+				if i%3 == 2 {
+					for j := range vals {
+						if vals[j].F {
+							seed ^= seed << 13
+							seed ^= seed >> 7
+							seed ^= seed << 17
+							switch vals[j].K {
+							case "Byte":
+								vals[j].V = seed & 0xff
+							case "Uint16":
+								vals[j].V = seed & 0xffff
+							case "Uint32":
+								vals[j].V = seed & 0xffffffff
+							}
+						}
+					}
+				}
+				res = runOne(fn, args, vals)
+			}
+		}
+		fmt.Printf("VERIF-RUN %s %s\n", r.ID, res)
 	}
+}
+
+func hasFree(vals []NondetVal) bool {
+	for _, v := range vals {
+		if v.F {
+			return true
+		}
+	}
+	return false
+}
+
+func usesMapOrder(vals []NondetVal) bool {
+	for _, v := range vals {
+		if len(v.K) >= 8 && v.K[:8] == "maporder" {
+			return true
+		}
+	}
+	return false
 }
 
 func runOne(fn func([]int), args []int, vals []NondetVal) (res string) {
